@@ -375,6 +375,13 @@ func run(t *testing.T, plan any, keep bool) *simcheck.Outcome {
 			out.Violate("put-error", "fault-free Put failed: %v", derr)
 			return
 		}
+		// the fault-free Put itself must have stored the data (also over a pre-damaged output)
+		if c3, err := cache.Open(dir); err == nil {
+			if data, _, err := c3.GetBytes(cachekit.ActionID(p.Target.ID)); err != nil || !bytes.Equal(data, tdata) {
+				out.Violate("put-did-not-store", "fault-free Put returned nil but GetBytes gives %v (%d bytes, want %d); pre-damage %q", err, len(data), len(tdata), p.PreDamage)
+				return
+			}
+		}
 		n := len(ops)
 		m := 0
 		if dry.reader != nil {
